@@ -1,1 +1,387 @@
-(* stub: to be written by group Csv *)
+(* Field codecs of acb's transaction CSV (src/portfolio/io/tx_csv.rs,
+   src/portfolio/model/{tx,affiliate,currency}.rs, src/util/decimal.rs) over
+   byte lists.  Text is [list N] (UTF-8 byte codes).  Decimals are
+   (sign, mantissa, scale) triples as in rust_decimal: the display scale and
+   the sign of zero are part of the value here.  Definitions only. *)
+From Coq Require Import List NArith ZArith Bool Arith.
+From ACB Require Import Base.Outcome.
+Import ListNotations.
+Local Open Scope N_scope.
+
+Definition bytes := list N.
+
+Fixpoint beqb (a b : bytes) : bool :=
+  match a, b with
+  | [], [] => true
+  | x :: a', y :: b' => N.eqb x y && beqb a' b'
+  | _, _ => false
+  end.
+
+Definition is_nil {T} (l : list T) : bool := match l with [] => true | _ => false end.
+
+(* ---- ASCII classes; str::to_lowercase / to_uppercase restricted to ASCII
+   (non-ASCII letters are outside valid_tx for the fields that are case
+   folded: affiliate, currency, action, header names) ---- *)
+Definition is_digit (c : N) : bool := (48 <=? c) && (c <=? 57).
+Definition is_upper (c : N) : bool := (65 <=? c) && (c <=? 90).
+Definition is_lower (c : N) : bool := (97 <=? c) && (c <=? 122).
+Definition lower1 (c : N) : N := if is_upper c then c + 32 else c.
+Definition upper1 (c : N) : N := if is_lower c then c - 32 else c.
+Definition lower (s : bytes) : bytes := map lower1 s.
+Definition upper (s : bytes) : bytes := map upper1 s.
+Definition is_ascii (s : bytes) : bool := forallb (fun c => c <? 128) s.
+
+(* ---- str::trim: char::is_whitespace on UTF-8 bytes
+   U+0009..000D, U+0020, U+0085, U+00A0, U+1680, U+2000..200A, U+2028,
+   U+2029, U+202F, U+205F, U+3000 ---- *)
+Definition is_ascii_ws (c : N) : bool := ((9 <=? c) && (c <=? 13)) || (c =? 32).
+Definition ws3 (a b c : N) : bool :=
+  ((a =? 225) && (b =? 154) && (c =? 128))
+  || ((a =? 226) && (b =? 128) &&
+      (((128 <=? c) && (c <=? 138)) || (c =? 168) || (c =? 169) || (c =? 175)))
+  || ((a =? 226) && (b =? 129) && (c =? 159))
+  || ((a =? 227) && (b =? 128) && (c =? 128)).
+Definition ws2 (a b : N) : bool := (a =? 194) && ((b =? 133) || (b =? 160)).
+
+Fixpoint trim_start (s : bytes) : bytes :=
+  match s with
+  | [] => []
+  | a :: r =>
+      if is_ascii_ws a then trim_start r else
+      match r with
+      | b :: r2 =>
+          if ws2 a b then trim_start r2 else
+          match r2 with
+          | c :: r3 => if ws3 a b c then trim_start r3 else s
+          | [] => s
+          end
+      | [] => s
+      end
+  end.
+
+(* the same on the reversed string (patterns reversed) *)
+Fixpoint trim_start_rev (s : bytes) : bytes :=
+  match s with
+  | [] => []
+  | a :: r =>
+      if is_ascii_ws a then trim_start_rev r else
+      match r with
+      | b :: r2 =>
+          if ws2 b a then trim_start_rev r2 else
+          match r2 with
+          | c :: r3 => if ws3 c b a then trim_start_rev r3 else s
+          | [] => s
+          end
+      | [] => s
+      end
+  end.
+Definition trim_end (s : bytes) : bytes := rev (trim_start_rev (rev s)).
+Definition trim (s : bytes) : bytes := trim_end (trim_start s).
+
+(* ---- decimal digits ---- *)
+Definition val_from (acc : N) (ds : list N) : N := fold_left (fun a d => a * 10 + d) ds acc.
+Definition val (ds : list N) : N := val_from 0 ds.
+
+Fixpoint digits_fuel (fuel : nat) (n : N) (acc : list N) : list N :=
+  match fuel with
+  | O => acc
+  | S f => if n =? 0 then acc else digits_fuel f (n / 10) (n mod 10 :: acc)
+  end.
+(* most significant digit first; [] for 0 (as the digit loop of
+   rust_decimal::str::to_str_internal) *)
+Definition digits (n : N) : list N := digits_fuel (N.to_nat (N.size n)) n [].
+
+Definition chars (ds : list N) : bytes := map (fun d => d + 48) ds.
+Definition zeros (n : nat) : list N := repeat 0 n.
+Definition pad_left (w : nat) (ds : list N) : list N := zeros (w - length ds) ++ ds.
+
+(* ---- rust_decimal::Decimal ---- *)
+Record dec : Type := { d_neg : bool; d_mant : N; d_scale : nat }.
+Definition max_mant : N := 79228162514264337593543950335. (* 2^96 - 1 *)
+
+Definition mk_dec (neg : bool) (m : N) (s : nat) : dec := {| d_neg := neg; d_mant := m; d_scale := s |}.
+
+(* to_str_internal: the digit string padded to at least [scale] digits,
+   split into whole and fractional digits *)
+Definition mant_digits (d : dec) : list N := pad_left (d_scale d) (digits (d_mant d)).
+Definition whole_digits (d : dec) : list N :=
+  firstn (length (mant_digits d) - d_scale d) (mant_digits d).
+Definition frac_digits (d : dec) : list N :=
+  skipn (length (mant_digits d) - d_scale d) (mant_digits d).
+Definition take_pad (p : nat) (l : list N) : list N := firstn p (l ++ zeros p).
+Definition whole_chars (w : list N) : bytes := match w with [] => [48] | _ => chars w end.
+
+(* Display with precision p ("{:.p}"): truncates, pads with zeros; sign from
+   the flag (so negative zero prints "-0") *)
+Definition fmt_prec (p : nat) (d : dec) : bytes :=
+  (if d_neg d then [45] else [])
+    ++ whole_chars (whole_digits d)
+    ++ (if (p =? 0)%nat then [] else 46 :: chars (take_pad p (frac_digits d))).
+(* to_string() *)
+Definition dec_to_string (d : dec) : bytes := fmt_prec (d_scale d) d.
+
+Fixpoint drop_zeros (l : list N) : list N :=
+  match l with
+  | 0 :: r => drop_zeros r
+  | _ => l
+  end.
+(* util/decimal.rs to_string_min_precision: group 5 of the regex is the
+   fractional part without its trailing zeros *)
+Definition trimmed_prec (d : dec) : nat := length (drop_zeros (rev (frac_digits d))).
+Definition tsmp (k : nat) (d : dec) : bytes := fmt_prec (Nat.max (trimmed_prec d) k) d.
+
+(* Decimal::from_str / from_str_exact (str.rs parse_str_radix_10), without
+   '_' separators (reported as not modelled).  [exact] = from_str_exact:
+   the rounding points return Underflow instead of rounding. *)
+Definition rej_dec : rej := RejParse 1.
+Definition rej_unmodelled : rej := RejOther 99.
+
+Definition dec_round (exact : bool) (data : N) (c : N) (scale : nat) : res (N * nat) :=
+  if exact then Rej rej_dec else
+  if is_digit c then
+    if (c - 48) <? 5 then Ok (data, scale)
+    else let data1 := data + 1 in
+         if max_mant <? data1 then
+           match scale with
+           | O => Rej rej_dec
+           | S s' => Ok ((data1 + 4) / 10, s')
+           end
+         else Ok (data1, scale)
+  else if c =? 95 then Rej rej_unmodelled
+  else Rej rej_dec.
+
+Fixpoint dec_scan (exact : bool) (s : bytes) (data : N) (scale : nat) (point has : bool)
+  : res (N * nat) :=
+  match s with
+  | [] => if has then Ok (data, scale) else Rej rej_dec
+  | c :: r =>
+      if is_digit c then
+        let next := data * 10 + (c - 48) in
+        if max_mant <? next then
+          (if point then dec_round exact data c scale else Rej rej_dec)
+        else
+          let scale' := if point then S scale else scale in
+          if point && (28 <=? scale')%nat && negb (is_nil r)
+          then dec_round exact next (hd 0 r) scale'
+          else dec_scan exact r next scale' point true
+      else if (c =? 46) && negb point then dec_scan exact r data scale true has
+      else if (c =? 95) && has then Rej rej_unmodelled
+      else Rej rej_dec
+  end.
+
+(* Decimal::from_parts clears the sign of zero *)
+Definition dec_of_parts (neg : bool) (x : N * nat) : dec :=
+  mk_dec (neg && negb (fst x =? 0)) (fst x) (snd x).
+
+Definition parse_dec_gen (exact : bool) (s : bytes) : res dec :=
+  match s with
+  | [] => Rej rej_dec
+  | 45 :: r => x <- dec_scan exact r 0 0%nat false false ;; Ok (dec_of_parts true x)
+  | 43 :: r => x <- dec_scan exact r 0 0%nat false false ;; Ok (dec_of_parts false x)
+  | _ => x <- dec_scan exact s 0 0%nat false false ;; Ok (dec_of_parts false x)
+  end.
+Definition parse_dec : bytes -> res dec := parse_dec_gen false.
+Definition parse_dec_exact : bytes -> res dec := parse_dec_gen true.
+
+Definition dec_is_zero (d : dec) : bool := d_mant d =? 0.
+(* is_positive / constraints of util/decimal.rs *)
+Definition dec_pos (d : dec) : bool := negb (d_neg d) && negb (dec_is_zero d).
+Definition dec_gez (d : dec) : bool := negb (d_neg d) || dec_is_zero d.
+Definition dec_lez (d : dec) : bool := d_neg d || dec_is_zero d.
+Definition pow10 (n : nat) : N := 10 ^ N.of_nat n.
+(* numeric equality / order of two non-negative magnitudes *)
+Definition mag_eqb (a b : dec) : bool :=
+  d_mant a * pow10 (d_scale b) =? d_mant b * pow10 (d_scale a).
+Definition mag_ltb (a b : dec) : bool :=
+  d_mant a * pow10 (d_scale b) <? d_mant b * pow10 (d_scale a).
+Definition dec_is_integer (d : dec) : bool := (d_mant d) mod (pow10 (d_scale d)) =? 0.
+Definition dec_one : dec := mk_dec false 1 0.
+Definition dec_zero : dec := mk_dec false 0 0.
+(* value == 1.0 *)
+Definition dec_is_one (d : dec) : bool := negb (d_neg d) && (d_mant d =? pow10 (d_scale d)).
+
+(* ---- time::Date, as the civil triple; Display is "{:04}-{:02}-{:02}" for
+   years 0..9999; Date::parse with "[year]-[month]-[day]" ---- *)
+Record date : Type := { dt_y : N; dt_m : N; dt_d : N }.
+Definition is_leap (y : N) : bool :=
+  ((y mod 4 =? 0) && negb (y mod 100 =? 0)) || (y mod 400 =? 0).
+Definition days_in_month (y m : N) : N :=
+  if (m =? 2) then (if is_leap y then 29 else 28)
+  else if (m =? 4) || (m =? 6) || (m =? 9) || (m =? 11) then 30 else 31.
+Definition valid_date (d : date) : bool :=
+  (dt_y d <=? 9999) && (1 <=? dt_m d) && (dt_m d <=? 12)
+  && (1 <=? dt_d d) && (dt_d d <=? days_in_month (dt_y d) (dt_m d)).
+Definition show_date (d : date) : bytes :=
+  chars (pad_left 4 (digits (dt_y d))) ++ [45] ++ chars (pad_left 2 (digits (dt_m d)))
+    ++ [45] ++ chars (pad_left 2 (digits (dt_d d))).
+Definition rej_date : rej := RejParse 2.
+Definition dig (c : N) : N := c - 48.
+Definition parse_date (s : bytes) : res date :=
+  match s with
+  | [y1; y2; y3; y4; h1; m1; m2; h2; d1; d2] =>
+      if forallb is_digit [y1; y2; y3; y4; m1; m2; d1; d2] && (h1 =? 45) && (h2 =? 45) then
+        let d := {| dt_y := val [dig y1; dig y2; dig y3; dig y4];
+                    dt_m := val [dig m1; dig m2]; dt_d := val [dig d1; dig d2] |} in
+        if valid_date d then Ok d else Rej rej_date
+      else Rej rej_date
+  | _ => Rej rej_date
+  end.
+
+(* ---- TxAction ---- *)
+Inductive act : Type := ABuy | ASell | ARoc | ASfla | ASplit.
+Definition str (l : list N) : bytes := l.
+Definition s_buy : bytes := [66; 117; 121].
+Definition s_sell : bytes := [83; 101; 108; 108].
+Definition s_roc : bytes := [82; 111; 67].
+Definition s_sfla : bytes := [83; 102; 76; 65].
+Definition s_split : bytes := [83; 112; 108; 105; 116].
+Definition show_act (a : act) : bytes :=
+  match a with ABuy => s_buy | ASell => s_sell | ARoc => s_roc | ASfla => s_sfla | ASplit => s_split end.
+Definition rej_act : rej := RejParse 3.
+Definition parse_act (s : bytes) : res act :=
+  let v := lower (trim s) in
+  if beqb v (lower s_buy) then Ok ABuy
+  else if beqb v (lower s_sell) then Ok ASell
+  else if beqb v (lower s_roc) then Ok ARoc
+  else if beqb v (lower s_sfla) then Ok ASfla
+  else if beqb v (lower s_split) then Ok ASplit
+  else Rej rej_act.
+
+(* ---- Currency::new: upper-cased text, "" = CAD ---- *)
+Definition s_cad : bytes := [67; 65; 68].
+Definition currency_new (s : bytes) : bytes :=
+  let u := upper s in if is_nil u then s_cad else u.
+Definition cur_is_default (c : bytes) : bool := beqb c s_cad.
+
+(* ---- Affiliate (affiliate.rs): from_strep + the process-wide dedup table ---- *)
+Record affdata : Type := { a_id : bytes; a_name : bytes; a_reg : bool }.
+Definition affdata_eqb (a b : affdata) : bool :=
+  beqb (a_id a) (a_id b) && beqb (a_name a) (a_name b) && Bool.eqb (a_reg a) (a_reg b).
+
+(* REGISTERED_RE = \([rR]\) *)
+Definition is_reg3 (a b c : N) : bool := (a =? 40) && ((b =? 82) || (b =? 114)) && (c =? 41).
+Fixpoint has_reg (s : bytes) : bool :=
+  match s with
+  | a :: r =>
+      match r with
+      | b :: c :: _ => is_reg3 a b c || has_reg r
+      | _ => false
+      end
+  | [] => false
+  end.
+(* replace_all(REGISTERED_RE, " "): leftmost, non-overlapping *)
+Fixpoint repl_reg (s : bytes) : bytes :=
+  match s with
+  | a :: r =>
+      match r with
+      | b :: c :: r3 => if is_reg3 a b c then 32 :: repl_reg r3 else a :: repl_reg r
+      | _ => s
+      end
+  | [] => []
+  end.
+(* replace_all("  +", " ") *)
+Fixpoint collapse (s : bytes) : bytes :=
+  match s with
+  | a :: r =>
+      if (a =? 32) && (match r with b :: _ => b =? 32 | [] => false end)
+      then collapse r else a :: collapse r
+  | [] => []
+  end.
+Definition s_default : bytes := [68; 101; 102; 97; 117; 108; 116].
+Definition s_reg_suffix : bytes := [32; 40; 82; 41].
+Definition s_global : bytes := [95; 95; 103; 108; 111; 98; 97; 108; 95; 95].
+
+Definition from_strep_data (s : bytes) : affdata :=
+  let registered := has_reg s in
+  let p0 := if registered then repl_reg s else s in
+  let p1 := trim (collapse p0) in
+  let pretty := if is_nil p1 then s_default else p1 in
+  let id := lower pretty in
+  if registered then {| a_id := id ++ s_reg_suffix; a_name := pretty ++ s_reg_suffix; a_reg := true |}
+  else {| a_id := id; a_name := pretty; a_reg := false |}.
+
+(* AffiliateDedupTable: id -> first data seen with that id *)
+Definition aftable := list affdata.
+Fixpoint tbl_find (id : bytes) (t : aftable) : option affdata :=
+  match t with
+  | [] => None
+  | a :: r => if beqb (a_id a) id then Some a else tbl_find id r
+  end.
+(* deduped_affiliate *)
+Definition intern (t : aftable) (s : bytes) : affdata * aftable :=
+  let d := from_strep_data s in
+  match tbl_find (a_id d) t with
+  | Some a => (a, t)
+  | None => (d, t ++ [d])
+  end.
+Definition af_default (t : aftable) := intern t [].
+Definition af_global (t : aftable) := intern t s_global.
+Definition aff_is_global (a : affdata) : bool := beqb (a_id a) s_global.
+
+(* ---- SFLInput ---- *)
+Record sflin : Type := { sf_val : dec; sf_force : bool }.
+Definition show_sfl (v : sflin) : bytes := tsmp 2 (sf_val v) ++ (if sf_force v then [33] else []).
+Definition rej_sfl : rej := RejParse 4.
+Definition parse_sfl (s : bytes) : res sflin :=
+  let force := match rev s with 33 :: _ => true | _ => false end in
+  let num := if force then removelast s else s in
+  match parse_dec num with
+  | Ok d => if dec_lez d then Ok {| sf_val := d; sf_force := force |} else Rej rej_sfl
+  | Rej r => if match r with RejOther _ => true | _ => false end then Rej r else Rej rej_sfl
+  | Panic p => Panic p
+  end.
+
+(* ---- SplitRatio ---- *)
+Record ratio : Type := { r_post : dec; r_pre : dec; r_rio : bool }.
+Definition ratio_is_reverse (r : ratio) : bool := mag_ltb (r_post r) (r_pre r).
+Definition s_for : bytes := [45; 102; 111; 114; 45].
+Definition show_ratio (r : ratio) : bytes :=
+  if dec_is_integer (r_post r) && dec_is_integer (r_pre r) then
+    if ratio_is_reverse r && negb (r_rio r)
+    then fmt_prec 1 (r_post r) ++ s_for ++ fmt_prec 1 (r_pre r)
+    else fmt_prec 0 (r_post r) ++ s_for ++ fmt_prec 0 (r_pre r)
+  else dec_to_string (r_post r) ++ s_for ++ dec_to_string (r_pre r).
+
+Definition is_digdot (c : N) : bool := is_digit c || (c =? 46).
+Fixpoint span_digdot (s : bytes) : bytes * bytes :=
+  match s with
+  | c :: r => if is_digdot c then let '(a, b) := span_digdot r in (c :: a, b) else ([], s)
+  | [] => ([], [])
+  end.
+(* \.\d *)
+Fixpoint has_dot_digit (s : bytes) : bool :=
+  match s with
+  | a :: r => match r with b :: _ => ((a =? 46) && is_digit b) || has_dot_digit r | [] => false end
+  | [] => false
+  end.
+Definition rej_ratio : rej := RejParse 5.
+Definition strip_for (s : bytes) : option bytes :=
+  match s with
+  | a :: b :: c :: d :: e :: r => if beqb (lower [a; b; c; d; e]) s_for then Some r else None
+  | _ => None
+  end.
+Definition parse_ratio (s0 : bytes) : res ratio :=
+  let s := trim s0 in
+  let '(g1, r1) := span_digdot s in
+  if is_nil g1 then Rej rej_ratio else
+  match strip_for r1 with
+  | None => Rej rej_ratio
+  | Some r2 =>
+      let '(g2, r3) := span_digdot r2 in
+      if is_nil g2 || negb (is_nil r3) then Rej rej_ratio else
+      match parse_dec_exact g1 with
+      | Ok post =>
+          if negb (dec_pos post) then Rej rej_ratio else
+          match parse_dec_exact g2 with
+          | Ok pre =>
+              if negb (dec_pos pre) then Rej rej_ratio else
+              let rio := negb (has_dot_digit g1) && negb (has_dot_digit g2) in
+              let r := {| r_post := post; r_pre := pre; r_rio := rio |} in
+              Ok (if ratio_is_reverse r then r else {| r_post := post; r_pre := pre; r_rio := false |})
+          | Rej e => Rej (match e with RejOther _ => e | _ => rej_ratio end)
+          | Panic p => Panic p
+          end
+      | Rej e => Rej (match e with RejOther _ => e | _ => rej_ratio end)
+      | Panic p => Panic p
+      end
+  end.
